@@ -76,13 +76,23 @@ def run(repo, chk):
     chk.rule('C02.T6', 'speculation: right operand first with keep=True, moved to r_out before the jump; left after; Heq(left,right) '
                        'before left.to(r_out); folded only when both sides are primitive')
     chk.rule('C02.T7', 'defeat functions use the variable defeat word; is_defeat/truth_is_defeat jump through effective_defeat')
+    chk.rule('C02.T9', 'every Turing jump and every halt sits in a recognised averting form: in particular a jump through the '
+                       'defeat word is emitted after its condition has been evaluated and directly in front of the halt it '
+                       'guards, so entering the handler skips no committed-path effect (shared with C03.J1/J2)')
+    chk.rule('C02.T10', 'execution continues after a handler: TryBlock.exit_modes merges the handler modes for all 32 body mode '
+                        'sets (shared with C16.E1)')
     gf = GenFacts(repo)
     # every Turing-jump decision (undo, preempt, ??) rests on branch targets re-checking the exact inverse condition
     chk.rule('C02.T8', 'the inverse-halt table is the exact logical involution and mnemonics are right (shared with C03.J3)')
     if chk.__class__.__name__ == 'Check':
         from . import c03
         from ..report import Remap
-        c03.run(repo, Remap(chk, {'C03.J3': 'C02.T8'}))
+        c03.run(repo, Remap(chk, {'C03.J3': 'C02.T8', 'C03.J1': 'C02.T9', 'C03.J2': 'C02.T9'}))
+        # what follows a try block is kept or discarded by the typechecker's exit-mode algebra: the handler's
+        # completion modes must be merged for EVERY body (DEFEAT is only recorded for statement-level defeat
+        # calls, so its absence does not make the handler dead) - the 32x32 tabulation of C16.E1 decides it
+        from . import c16
+        c16.run(repo, Remap(chk, {'C16.E1': 'C02.T10'}))
 
     # ------------------------------------------------------------------ try arms
     tp = arm_paths(gf, 'gen_block', 'TryBlock')
